@@ -2054,7 +2054,7 @@ class SquareLowRankUpdateMatrix(InvertibleMatrix, ImplicitArrayMatrix):
             capacitance_matrix: Square matrix equal to.
 
                     inner_square_matrix.inv
-                    + right_factor_matrix @ square_matrix.inv @ left_factor_matrix
+                    + sign * right_factor_matrix @ square_matrix.inv @ left_factor_matrix
 
                 and with shape `(dim_inner, dim_inner)` which is used in constructing
                 inverse and computation of determinant of the low-rank updated matrix,
@@ -2143,7 +2143,8 @@ class SquareLowRankUpdateMatrix(InvertibleMatrix, ImplicitArrayMatrix):
         if self._capacitance_matrix is None:
             self._capacitance_matrix = DenseSquareMatrix(
                 self.inner_square_matrix.inv.array
-                + self.right_factor_matrix
+                + self._sign
+                * self.right_factor_matrix
                 @ (self.square_matrix.inv @ self.left_factor_matrix.array),
             )
         return self._capacitance_matrix
@@ -2255,7 +2256,7 @@ class SymmetricLowRankUpdateMatrix(
             capacitance_matrix: Symmetric matrix  equal to.
 
                     inner_symmetric_matrix.inv
-                    + factor_matrix.T @  symmetric_matrix.inv @ factor_matrix
+                    + sign * factor_matrix.T @  symmetric_matrix.inv @ factor_matrix
 
                 and with shape `(dim_inner, dim_inner)` which is used in constructing
                 inverse and computation of determinant of the low-rank updated matrix,
@@ -2305,7 +2306,8 @@ class SymmetricLowRankUpdateMatrix(
         if self._capacitance_matrix is None:
             self._capacitance_matrix = DenseSymmetricMatrix(
                 self.inner_symmetric_matrix.inv.array
-                + self.factor_matrix.T
+                + self._sign
+                * self.factor_matrix.T
                 @ (self.symmetric_matrix.inv @ self.factor_matrix.array),
             )
         return self._capacitance_matrix
@@ -2382,7 +2384,7 @@ class PositiveDefiniteLowRankUpdateMatrix(
             capacitance_matrix: Positive-definite matrix equal to.
 
                     inner_pos_def_matrix.inv
-                    + factor_matrix.T @ pos_def_matrix.inv @ factor_matrix
+                    + sign * factor_matrix.T @ pos_def_matrix.inv @ factor_matrix
 
                 and with shape `(dim_inner, dim_inner)` which is used in constructing
                 inverse and computation of determinant of the low-rank updated matrix,
@@ -2437,7 +2439,8 @@ class PositiveDefiniteLowRankUpdateMatrix(
         if self._capacitance_matrix is None:
             self._capacitance_matrix = DensePositiveDefiniteMatrix(
                 self.inner_pos_def_matrix.inv.array
-                + self.factor_matrix.T
+                + self._sign
+                * self.factor_matrix.T
                 @ (self.pos_def_matrix.inv @ self.factor_matrix.array),
             )
         return self._capacitance_matrix
@@ -2462,7 +2465,9 @@ class PositiveDefiniteLowRankUpdateMatrix(
                 u_matrix.shape[1],
             ),
         )
-        m_matrix = sla.sqrtm(i_inner + l_matrix.T @ (k_matrix @ l_matrix.array))
+        m_matrix = sla.sqrtm(
+            i_inner + self._sign * l_matrix.T @ (k_matrix @ l_matrix.array),
+        )
         x_matrix = DenseSymmetricMatrix(
             l_matrix.inv.T @ ((m_matrix - i_inner) @ l_matrix.inv),
         )
@@ -2470,11 +2475,19 @@ class PositiveDefiniteLowRankUpdateMatrix(
 
     @property
     def grad_log_abs_det(self) -> NDArray:
-        return 2 * (self.inv @ (self.factor_matrix.array @ self.inner_pos_def_matrix))
+        return (
+            2
+            * self._sign
+            * (self.inv @ (self.factor_matrix.array @ self.inner_pos_def_matrix))
+        )
 
     def grad_quadratic_form_inv(self, vector: NDArray) -> NDArray:
         inv_matrix_vector = self.inv @ vector
-        return -2 * np.outer(
-            inv_matrix_vector,
-            self.inner_pos_def_matrix @ (self.factor_matrix.T @ inv_matrix_vector),
+        return (
+            -2
+            * self._sign
+            * np.outer(
+                inv_matrix_vector,
+                self.inner_pos_def_matrix @ (self.factor_matrix.T @ inv_matrix_vector),
+            )
         )
